@@ -1,4 +1,5 @@
 // C06 corollaries over the closed forms
+use crate::props::c00_affine::*;
 use crate::props::c04_averages::*;
 use crate::props::c07_ranges::*;
 
